@@ -58,7 +58,7 @@ def same(a, b):
     return a == b
 
 
-def close(a, b, rtol=1e-8):
+def close(a, b, rtol=1e-8, atol=0.0):
     """Tolerance comparison of two encodings of the same kind and shape
     (M-truth only)."""
     if a is None or b is None:
@@ -66,7 +66,7 @@ def close(a, b, rtol=1e-8):
     if a['k'] != b['k']:
         return False
     if a['k'] == 'seq':
-        return len(a['v']) == len(b['v']) and all(close(x, y, rtol) for x, y in zip(a['v'], b['v']))
+        return len(a['v']) == len(b['v']) and all(close(x, y, rtol, atol) for x, y in zip(a['v'], b['v']))
     if a['k'] not in ('nd', 'utpm'):
         return a == b
     if a['sh'] != b['sh']:
@@ -78,7 +78,7 @@ def close(a, b, rtol=1e-8):
     if not (numpy.all(numpy.isfinite(x)) and numpy.all(numpy.isfinite(y))):
         return False
     scale = max(1.0, float(numpy.max(numpy.abs(y))))
-    return bool(numpy.max(numpy.abs(x - y)) <= rtol * scale)
+    return bool(numpy.max(numpy.abs(x - y)) <= max(rtol * scale, atol))
 
 
 def to_array(e):
